@@ -253,6 +253,60 @@ Theorem C10_routing_accepts :
 Proof. exact routing_accepts. Qed.
 Print Assumptions C10_routing_accepts.
 
+(* ---- histories: k-th of several alignments made with ONE restraint list object (rigid pre-alignment
+   then the full one; a parsed dictionary reused).  The caller's list is the same after every call, and
+   every call designates the atoms of the list the caller built *)
+Theorem C10_history :
+  forall (P : Type) (start end_ : molecule P) (restr : list (Z * Z))
+         (calls : list (option (list Z) * bool * bool)) (k : nat) (c : call P) (l' : list (Z * Z)),
+  nth_error (align_history start end_ restr calls) k = Some (Ok (Call c), l') ->
+  l' = restr /\
+  exists d ign a, nth_error calls k = Some (d, ign, a) /\
+  let swap := m_len start <? m_len end_ in
+  c_fixed_is_start c = negb swap /\
+  c_mobile_pos c = map a_pos (m_atoms (if swap then start else end_)) /\
+  c_restr c = filter_map (route start end_ ign) restr /\
+  forall (i j : Z) (a_s a_e : atom P),
+    (0 <= i)%Z -> (0 <= j)%Z ->
+    nth_error (m_atoms start) (Z.to_nat i) = Some a_s ->
+    nth_error (m_atoms end_) (Z.to_nat j) = Some a_e ->
+    let a_fixed := if swap then a_e else a_s in
+    let a_mobile := if swap then a_s else a_e in
+    (route start end_ ign (i, j) = None <-> ign = true /\ hyd a_fixed = true) /\
+    forall i' j', route start end_ ign (i, j) = Some (i', j') ->
+      (0 <= i')%Z /\ (0 <= j')%Z /\
+      nth_error (c_fixed_pos c) (Z.to_nat i') = Some (a_pos a_fixed) /\
+      nth_error (c_mobile_pos c) (Z.to_nat j') = Some (a_pos a_mobile).
+Proof. exact (@history_designates). Qed.
+Print Assumptions C10_history.
+
+(* ---- Manager.align_molecules(parsed, ..., parse_restrictions=False): the restrictions dictionary is
+   used in ITS key order (any permutation or subset of the species); the calls follow that order, each
+   with the restraints stored under its own name and the deformation types / hydrogen flag given for
+   that NAME (never by position) *)
+Theorem C10_routing_noparse :
+  forall (mc : list species) (pr : list (string * option (list (Z * Z))))
+         (d : option (list (string * dvalue))) (i : option (list (string * ivalue)))
+         (pd : list (string * option (list Z))) (pi : list (string * bool)) (result : mcall -> res unit),
+  parse_deformations (complete mc) d = Ok pd -> parse_ignore_hydrogens (complete mc) i = Ok pi ->
+  (forall n, In n (map fst pr) -> In n (map fst (complete mc))) ->
+  (forall c, result c = Ok tt) ->
+  exists calls, manager_align_noparse mc (Some pr) d i result = (calls, Ok tt) /\
+    map (fun c => (call_name c, call_restr c)) calls = pr /\
+    forall c, In c calls -> deform_spec d (call_name c) (call_deform c) /\ ign_spec i (call_name c) (call_ign c).
+Proof. exact routing_noparse. Qed.
+Print Assumptions C10_routing_noparse.
+
+Theorem C10_routing_noparse_rejects :
+  forall (mc : list species) (pr : list (string * option (list (Z * Z))))
+         (d : option (list (string * dvalue))) (i : option (list (string * ivalue))) (e : err)
+         (result : mcall -> res unit),
+  parse_deformations (complete mc) d = Err e \/
+  (exists pd, parse_deformations (complete mc) d = Ok pd /\ parse_ignore_hydrogens (complete mc) i = Err e) ->
+  manager_align_noparse mc (Some pr) d i result = ([], Err e).
+Proof. exact routing_noparse_rejects. Qed.
+Print Assumptions C10_routing_noparse_rejects.
+
 (* ---- non-vacuity: the hypotheses are met by concrete, non-trivial inputs *)
 Open Scope string_scope.
 
@@ -288,4 +342,24 @@ Example C10_nonvacuous_unknown :
 Proof. reflexivity. Qed.
 Example C10_nonvacuous_malformed :
   manager_align ([mkSpecies "AAA" 4 (Some 2); mkSpecies "BBB" 2 None; mkSpecies "CCC" 3 (Some 5)] : list species) (Some [("AAA", Some [RTuple [0; 2]%Z])]) None None (fun _ => Ok tt) = ([], Err EValue).
+Proof. reflexivity. Qed.
+
+(* one list used for a rigid pre-alignment and the full alignment (start smaller: roles swap) *)
+Example C10_nonvacuous_history :
+  map snd (align_history
+    (mkMol [mkRes "R" [mkAtom "B0" 0; mkAtom "H1" 1; mkAtom "B2" 2]] true : molecule nat)
+    (mkMol [mkRes "R" [mkAtom "H0" 100; mkAtom "C1" 101; mkAtom "1H" 102; mkAtom "C3" 103; mkAtom "HA4" 104]] true : molecule nat)
+    [(0, 1); (2, 4)]%Z [(Some [0; 1]%Z, false, true); (None, false, true)]) = [[(0, 1); (2, 4)]%Z; [(0, 1); (2, 4)]%Z] /\
+  map (fun x => match fst x with Ok (Call c) => c_restr c | _ => [] end) (align_history
+    (mkMol [mkRes "R" [mkAtom "B0" 0; mkAtom "H1" 1; mkAtom "B2" 2]] true : molecule nat)
+    (mkMol [mkRes "R" [mkAtom "H0" 100; mkAtom "C1" 101; mkAtom "1H" 102; mkAtom "C3" 103; mkAtom "HA4" 104]] true : molecule nat)
+    [(0, 1); (2, 4)]%Z [(Some [0; 1]%Z, false, true); (None, false, true)]) = [[(1, 0); (4, 2)]%Z; [(1, 0); (4, 2)]%Z].
+Proof. split; reflexivity. Qed.
+
+(* the parsed dictionary lists CCC before AAA; options are given for AAA only *)
+Example C10_nonvacuous_noparse :
+  manager_align_noparse ([mkSpecies "AAA" 4 (Some 2); mkSpecies "BBB" 2 None; mkSpecies "CCC" 3 (Some 5)] : list species)
+    (Some [("CCC", Some [(0, 0)]%Z); ("AAA", Some [(0, 1); (3, 0)]%Z)])
+    (Some [("AAA", DSeq [0; 1]%Z)]) (Some [("AAA", IBool false)]) (fun _ => Ok tt) =
+  ([("CCC", Some [(0, 0)]%Z, None, true); ("AAA", Some [(0, 1); (3, 0)]%Z, Some [0; 1]%Z, false)], Ok tt).
 Proof. reflexivity. Qed.
